@@ -18,7 +18,8 @@ var c12Keywords = map[string]bool{"and": true, "break": true, "do": true, "else"
 
 type identPos struct {
 	file       string
-	line, col  int
+	line, col  int // col: LSP character (UTF-16 code units)
+	bcol       int // byte offset of the identifier in its line
 	name       string
 	afterLocal bool // directly after `local ` / `local function `: a local declaration
 }
@@ -62,7 +63,7 @@ func identTokens(file, src string) []identPos {
 							}
 						}
 					}
-					out = append(out, identPos{file: file, line: ln, col: i, name: w,
+					out = append(out, identPos{file: file, line: ln, col: utf16Len(line[:i]), bcol: i, name: w, // LSP character = UTF-16 units
 						afterLocal: isParam || inLocalList || strings.HasSuffix(pre, "local ") || strings.HasSuffix(pre, "local function ")})
 				}
 				i = j
@@ -337,7 +338,7 @@ func c12Multi(res *lib.Result, dir string, files map[string]string, tag string, 
 		}
 		if len(problems) > 0 {
 			// class K3: a member access whose definition is an annotation field
-			isMember := p.col > 0 && strings.Split(files[p.file], "\n")[p.line][p.col-1] == '.'
+			isMember := p.bcol > 0 && strings.Split(files[p.file], "\n")[p.line][p.bcol-1] == '.'
 			if isMember && d.ok {
 				dl := strings.Split(files[d.file], "\n")
 				if d.line < len(dl) && strings.HasPrefix(strings.TrimSpace(dl[d.line]), "---@") {
